@@ -381,7 +381,9 @@ class Gen:
         elif kind == "missing":
             path = (g.npath(rng.choice(plain)) if plain and rng.random() < 0.5 else b"") + b"/NoSuchNode"
         elif kind == "nofile":
-            fname = rng.choice([b"nothere.cgns", self.P("m/nothere.cgns"), self.P("nodir/f1.cgns")])
+            # (an absolute name that does not exist is retried by libhdf5 with its last component in the parent's
+            #  directory -- modelled in h5_cands -- so the missing files get base names that exist nowhere)
+            fname = rng.choice([b"nothere.cgns", self.P("m/nothere.cgns"), self.P("nodir/nothere1.cgns")])
             path = b"/" + rand_name(rng, set(), simple=True)
         elif kind == "cycle":
             # the link names itself, or a sibling link that will name it back
@@ -875,6 +877,18 @@ def scenario(name, rng, be, root):
         if Ls is not None:
             g.x_read(A, Ls)
         g.x_close(A)
+    elif name == "errbudget":
+        # failures must not use anything up: many failing resolutions (dangling, cyclic, through their own path), then good ones
+        g.x_open(A, "w"); t = g.x_create(A, 0, b"T", b"LabelT", b"abc"); g.x_create(A, t, b"K", b"LabelK")
+        bad = [g.x_link(A, 0, b"D1", b"", b"/Nope"), g.x_link(A, 0, b"D2", b"nofile.cgns", b"/T"),
+               g.x_link(A, 0, b"C1", b"", b"/C1"), g.x_link(A, 0, b"N1", b"", b"/N1/x"), g.x_link(A, 0, b"V1", b"", b"/D1/K")]
+        good = g.x_link(A, 0, b"G", b"", b"/T"); via = g.x_link(A, 0, b"GV", b"", b"/G/K")
+        for rnd in range(30):
+            for b_ in bad:
+                g.x_read(A, b_)
+            if rnd % 10 == 9:
+                g.x_read(A, good); g.x_read(A, via, hint={"hdf5": K_H5VIA}); g.x_read(A, 0, b"/G/K")
+        g.x_read(A, good); g.x_read(A, via, hint={"hdf5": K_H5VIA}); g.x_close(A)
     elif name in ("chain100", "chain101", "chain5"):
         n = {"chain100": 100, "chain101": 101, "chain5": 5}[name]
         g.x_open(A, "w"); g.x_create(A, 0, b"T", b"LabelT", b"0123")
@@ -952,7 +966,7 @@ def scenario(name, rng, be, root):
     return g
 
 
-SCENARIOS = ["stale", "nest", "nest2", "mutual", "close9", "userheld", "chain5", "chain100", "chain101", "cycle", "via", "dangling",
+SCENARIOS = ["stale", "nest", "nest2", "mutual", "close9", "userheld", "errbudget", "chain5", "chain100", "chain101", "cycle", "via", "dangling",
              "retarget", "search", "sep"]
 
 
